@@ -166,3 +166,137 @@ def tupleise_new_structs(raw):
                 walk(v)
     walk(raw["bodies"])
     return raw, new
+
+
+def canonicalise_moves(raw):
+    """Move tolerance: a type or function of the pinned tree that is missing under its path,
+    while exactly one *new* item of the same name (and, for a function, the same signature)
+    exists in another module, is that item after a move (a file split, a helper moved next to
+    its user).  The pinned path is restored everywhere, and a moved function is presented
+    with the file of its pinned home (rules scope some roles by file)."""
+    import re
+    with open(os.path.join(HERE, "known_functions.json")) as f:
+        k = json.load(f)
+    with open(os.path.join(HERE, "api_signatures.json")) as f:
+        api = json.load(f)["functions"]
+    known_adts = set(k.get("adts", []))
+    present_adts = {a["path"] for a in raw["adts"]}
+    ren = {}
+    for path in sorted(known_adts):
+        if path in present_adts or "::" not in path:
+            continue
+        name = path.rsplit("::", 1)[1]
+        cands = [a["path"] for a in raw["adts"] if a["path"] not in known_adts and not a.get("in_test") and "::" in a["path"]
+                 and a["path"].rsplit("::", 1)[1] == name]
+        if len(cands) == 1 and cands[0] not in ren:
+            ren[cands[0]] = path
+    if ren:
+        text = json.dumps(raw)
+        for new, old in ren.items():
+            text = re.sub(r"(?<![A-Za-z0-9_:])" + re.escape(new) + r"(?![A-Za-z0-9_])", old, text)
+        raw = json.loads(text)
+    present = {b["id"] for b in raw["bodies"]}
+    known_fns = set(k.get("functions", []))
+    m = {}
+    for name, s in api.items():
+        if name in present or name.startswith("<"):
+            continue
+        last = name.rsplit("::", 1)[1]
+        want = (s["impl_self_ty"], s["impl_trait"], tuple(s["inputs"]), s["output"], s["kind"])
+        cands = [b["id"] for b in raw["bodies"] if b["kind"] in ("fn", "assoc_fn") and not b.get("in_test")
+                 and b["id"] not in api and b["id"] not in known_fns and b["id"].rsplit("::", 1)[-1] == last and _sig(b) == want]
+        if len(cands) == 1 and cands[0] not in m:
+            m[cands[0]] = name
+    if m:
+        def walk(x):
+            if isinstance(x, dict):
+                for kk, v in list(x.items()):
+                    if kk in ("id", "path", "resolved", "root", "parent", "of", "body", "closure", "fndef", "item") and isinstance(v, str):
+                        x[kk] = _sub(v, m)
+                    else:
+                        walk(v)
+            elif isinstance(x, list):
+                for v in x:
+                    walk(v)
+        walk(raw)
+    # a pinned function that now lives in another file keeps its pinned home for scoping
+    moved_files = 0
+    for b in raw["bodies"]:
+        root = b.get("root") or b["id"]
+        s = api.get(b["id"]) or api.get(root)
+        if s and s.get("file") and b.get("span", {}).get("file") and b["span"]["file"] != s["file"] and not b.get("in_test"):
+            b["span"]["real_file"] = b["span"]["file"]
+            b["span"]["file"] = s["file"]
+            moved_files += 1
+    return raw, {"adts": ren, "fns": m, "files": moved_files}
+
+
+def lower_new_flag_enums(raw):
+    """A two-valued, field-less enum that does not exist on the pinned tree is a boolean by
+    another name (`visited: bool` -> `stage: FrameStage`, `untouched` -> `TicketOrigin`).  It is
+    presented to the rules as the bool it replaces: first variant = false, second = true;
+    `discriminant(x)` becomes `x`, a derived `==` becomes a comparison of the two values."""
+    import re
+    with open(os.path.join(HERE, "known_functions.json")) as f:
+        known = set(json.load(f).get("adts", []))
+    E = {a["path"] for a in raw["adts"] if a["kind"] == "enum" and not a.get("in_test") and a["path"] not in known and "::" in a["path"]
+         and len(a["variants"]) == 2 and all(not v["fields"] for v in a["variants"])}
+    if not E:
+        return raw, set()
+    pat = re.compile(r"(?<![A-Za-z0-9_:])(" + "|".join(re.escape(e) for e in sorted(E, key=len, reverse=True)) + r")(?![A-Za-z0-9_:<])")
+
+    def is_e(tystr):
+        return isinstance(tystr, str) and tystr.lstrip("&").replace("mut ", "").strip() in E
+    for body in raw["bodies"]:
+        locs = body["locals"]
+        disc_locals = set()
+        for blk in body["blocks"]:
+            for st in blk["stmts"]:
+                if st["k"] != "assign":
+                    continue
+                rv = st["rv"]
+                if rv["k"] == "aggregate" and rv["kind"].get("k") == "adt" and rv["kind"].get("adt") in E and not rv["ops"]:
+                    st["rv"] = {"k": "use", "op": {"k": "const", "ty": {"s": "bool"}, "bits": str(rv["kind"]["idx"]),
+                                                   "text": "const %s" % ("true" if rv["kind"]["idx"] else "false")}}
+                elif rv["k"] == "discriminant" and rv.get("adt") in E:
+                    st["rv"] = {"k": "use", "op": {"k": "copy", "place": rv["place"]}}
+                    if not st["place"]["proj"]:
+                        disc_locals.add(st["place"]["local"])
+            t = blk["term"]
+            if t["k"] == "call" and t["callee"].get("trait") == "std::cmp::PartialEq" and t["callee"].get("name") in ("eq", "ne") \
+                    and (t["callee"].get("self_ty") or {}).get("s") in E and len(t["args"]) == 2 and t.get("target") is not None \
+                    and all(a["k"] in ("copy", "move") for a in t["args"]):
+                def deref(a):
+                    return {"k": "copy", "place": {"local": a["place"]["local"], "proj": list(a["place"]["proj"]) + [{"k": "deref"}]}}
+                blk["stmts"].append({"k": "assign", "place": t["dest"], "span": t["span"],
+                                     "rv": {"k": "binop", "op": "Eq" if t["callee"]["name"] == "eq" else "Ne", "a": deref(t["args"][0]), "b": deref(t["args"][1])}})
+                blk["term"] = {"k": "goto", "target": t["target"], "span": t["span"]}
+        for l in disc_locals:
+            locs[l]["ty"] = {"s": "bool"}
+        for blk in body["blocks"]:
+            t = blk["term"]
+            if t["k"] == "switch" and t["discr"]["k"] in ("copy", "move") and not t["discr"]["place"]["proj"] and t["discr"]["place"]["local"] in disc_locals:
+                t["discr_ty"] = "bool"
+                tg = {v: d for v, d in t["targets"]}
+                if "0" in tg and "1" in tg:
+                    t["targets"] = [["0", tg["0"]]]
+                    t["otherwise"] = tg["1"]
+                elif "1" in tg:
+                    t["targets"] = [["0", t["otherwise"]]]
+                    t["otherwise"] = tg["1"]
+
+    def walk(x):
+        if isinstance(x, dict):
+            if x.get("adt") in E and "s" in x:
+                del x["adt"]
+            for kk, v in list(x.items()):
+                if kk in ("s", "ty") and isinstance(v, str) and pat.search(v):
+                    x[kk] = pat.sub("bool", v)
+                else:
+                    walk(v)
+        elif isinstance(x, list):
+            for v in x:
+                walk(v)
+    walk(raw["bodies"])
+    walk(raw["adts"])
+    return raw, E
